@@ -255,8 +255,8 @@ def oracle(ctx, kind, p):
                         parts.append(s)
                 if len(parts) == len(gs):
                     for sep in ('\n\n', '\n', ' ', ''):
-                        if sep in (' ', '') and any(g.metadata for g in gs[1:]):
-                            continue      # a metadata comment must start on its own line
+                        # (with ' ' or '' the first metadata comment of a graph starts on the last line of the
+                        #  previous one: it is still that graph's comment, and runs to the end of its line)
                         ok, res = ctx.call(penman.loads, sep.join(parts), model=model, clause='loads(sep)')
                         ctx.count('events')
                         if ok and sig(res) != want:
